@@ -36,6 +36,7 @@ class Sources:
         return self.trees[mod]
 
     def find(self, key):
+        key = key.split("#")[0]      # `function#variant`: a second contract of the same function (other parameter sorts)
         parts = key.split(".")
         node = self.module(parts[0])
         for p in parts[1:]:
